@@ -82,7 +82,9 @@ void run(vf::Draw &d, vf::Ctx &ctx) {
   constexpr int MODE = P::MODE;
   A a, b, c; R r, r0;
   int cls;
-  if (MODE == 1 || MODE == 5) cls = 0; else if (MODE == 0) cls = (int)d.integer(0, 2); else cls = (int)d.integer(0, 1);
+  // MODE 2 (libm at the root) also receives the boundary table (largest/smallest magnitudes, infinities, NaN): a re-implementation that is
+  // accurate on ordinary values can still overflow or underflow where the scalar function does not
+  if (MODE == 1 || MODE == 5) cls = 0; else if (MODE == 0 || MODE == 2) cls = (int)d.integer(0, 2); else cls = (int)d.integer(0, 1);
   if (std::is_integral<SR>::value && MODE != 0 && cls == 1) cls = 0;
   static const char *cn[] = {"small-int", "dyadic", "special"};
   auto fill = [&](S *p) {
